@@ -14,3 +14,5 @@ import TephraProps.C20
 #print axioms Tephra.Props.C20_window_prev_statement_holds
 #print axioms Tephra.Props.C20_former_F13c_witness
 #print axioms Tephra.Props.C20_owned_roundtrip
+#print axioms Tephra.Props.C20_window_of_window
+#print axioms Tephra.Props.C20_clipped_nested
